@@ -65,6 +65,17 @@ def iterate(I, v, for_loop=False):
         v.pos = len(v.items)
         return out
     if isinstance(v, _SymRange):
+        # complete case split when the path condition confines the trip count to a small set
+        if v.step == 1:
+            start, stop = zi(v.start), zi(v.stop)
+            cnt = z3.simplify(stop - start)
+            for K in (4, 16):
+                if I.ctx.entails(cnt <= K):
+                    for k in range(K + 1):
+                        if I.ctx.branch(cnt <= k):
+                            from .builtins_ import binop
+                            return [binop(I, "+", v.start, j) for j in range(k)]
+                    break
         raise Unsupported("iteration over range with symbolic bound (needs a loop contract)")
     from .builtins_ import SymSet
     if isinstance(v, SymSet):
@@ -167,6 +178,9 @@ def py_isinstance(I, v, t):
     if isinstance(v, Opaque):
         if v.kind == "str":
             return issubclass(str, t)
+        if v.kind == "datetime":
+            import datetime as _dt
+            return issubclass(_dt.datetime, t)
         if v.kind == "any":
             raise Unsupported("isinstance on an unconstrained value")
         return t is object
@@ -180,6 +194,8 @@ def call_builtin(I, fn, args, kwargs):
     ctx = I.ctx
     if isinstance(fn, Opaque) and fn.kind == "strmethod":
         return Opaque("str")
+    if isinstance(fn, Opaque) and fn.kind == "tdmethod":
+        return wrap_int(fn.t)     # whole seconds: float(total_seconds) is exact below 2**53
     h = _HANDLERS.get(_key(fn))
     if h is not None:
         return h(I, args, kwargs)
@@ -222,7 +238,19 @@ def b_len(I, a, k):
         raise_py(TypeError, "object has no len()")
     from .builtins_ import SymSet
     if isinstance(v, SymSet):
-        raise Unsupported("len of symbolic set")
+        # number of distinct members: item i counts iff it differs from every earlier item
+        import ast as _ast
+        from .builtins_ import compare
+        if len(v.items) > 8:
+            raise Unsupported("len of symbolic set with more than 8 members")
+        total = z3.IntVal(0)
+        for i, x in enumerate(v.items):
+            diff = []
+            for y in v.items[:i]:
+                e = truth(compare(I, _ast.Eq(), x, y))
+                diff.append(z3.Not(z3.BoolVal(e) if isinstance(e, bool) else e))
+            total = total + z3.If(z3.And(*diff) if diff else z3.BoolVal(True), 1, 0)
+        return wrap_int(total)
     if isinstance(v, (SInt, SBool, SBV)) or v is None or isinstance(v, (int, float)):
         raise_py(TypeError, "object has no len()")
     if isinstance(v, _Iter):
@@ -475,7 +503,10 @@ def b_set(I, a, k):
     if _deep_sym(vals):
         from .builtins_ import SymSet
         return SymSet(vals)
-    return set(vals)
+    try:
+        return set(vals)
+    except TypeError as e:
+        raise PyRaise(ExcVal(TypeError, e.args))
 
 
 def b_frozenset(I, a, k):
@@ -728,6 +759,16 @@ _HANDLERS = {
 from . import api as _api  # noqa: E402
 
 
+def b_object_setattr(I, a, k):
+    o, name, v = a
+    if not isinstance(o, Obj):
+        raise Unsupported("object.__setattr__ on non-object")
+    o.fields[name] = v
+
+
+_HANDLERS[object.__setattr__] = b_object_setattr
+
+
 def b_assume(I, a, k):
     t = truth(a[0])
     I.ctx.assume(z3.BoolVal(t) if isinstance(t, bool) else t)
@@ -759,6 +800,28 @@ def shallow_copy(v):
 # ------------------------------------------------------------------ methods
 def call_method(I, obj, name, args, kwargs):
     ctx = I.ctx
+    from .interp import SuperRef
+    if isinstance(obj, SuperRef):
+        if name == "__noop__":
+            return None
+        if name == "__eq__":
+            # dataclass-generated __eq__ of the nearest dataclass base: same class, fields equal
+            other = args[0]
+            me = obj.obj
+            if not isinstance(other, Obj) or other.cls is not me.cls:
+                return NotImplemented
+            conj = []
+            for b in obj.cls.bases(I.world):
+                if b.is_dataclass:
+                    for fname, _, _, kind in b.all_fields(I.world):
+                        if kind == "field":
+                            e = values_equal(me.fields.get(fname), other.fields.get(fname), ctx)
+                            if e is False:
+                                return False
+                            if e is not True:
+                                conj.append(e)
+                    break
+            return wrap_bool(z3.And(*conj)) if conj else True
     if obj is int and name == "from_bytes":
         return int_from_bytes(I, args, kwargs)
     if obj is bytes and name == "fromhex":
@@ -841,8 +904,20 @@ def int_from_bytes(I, args, kwargs):
     sb = as_sbytes(data)
     little = order == "little"
     n = sb.length()
-    if len(sb.segs) == 1 and isinstance(sb.segs[0], IE) and sb.segs[0].little == little and not signed:
-        return wrap_int(sb.segs[0].x)
+    if len(sb.segs) == 1 and isinstance(sb.segs[0], IE) and sb.segs[0].little == little:
+        u = sb.segs[0].x
+        if not signed:
+            return wrap_int(u)
+        w = sb.segs[0].w
+        org = ctx.int_origin.get(("enc", u.get_id()))
+        if org is not None:
+            return wrap_int(org[0])     # the signed value this encoding was made from
+        t = z3.If(u >= 2 ** (8 * w - 1), u - 2 ** (8 * w), u)
+        r = wrap_int(t)
+        if isinstance(r, SInt):
+            ctx.keep.append(r.t)
+            ctx.int_origin[("signed", r.t.get_id())] = (r.t, sb, little, w)
+        return r
     if not isinstance(n, int):
         # symbolic length: uninterpreted value function with range and monotone facts
         facts = []
@@ -870,6 +945,12 @@ def int_from_bytes(I, args, kwargs):
     t = z3.simplify(z3.Sum(terms)) if terms else z3.IntVal(0)
     if signed:
         t = z3.If(t >= 2 ** (8 * n - 1), t - 2 ** (8 * n), t)
+        r = wrap_int(t)
+        if isinstance(r, SInt):
+            ctx.keep.append(r.t)
+            ctx.int_origin[("signed", r.t.get_id())] = (r.t, sb, little, n)
+            ctx.fact(z3.And(r.t >= -(2 ** (8 * n - 1)), r.t < 2 ** (8 * n - 1)))
+        return r
     r = wrap_int(t)
     if isinstance(r, SInt) and not signed:
         ctx.keep.append(r.t)
@@ -892,7 +973,14 @@ def int_to_bytes(I, x, args, kwargs):
     w = length
     if signed:
         I.safety("to_bytes_overflow", wrap_bool(z3.And(t >= -(2 ** (8 * w - 1)), t < 2 ** (8 * w - 1))), OverflowError)
-        t = z3.simplify(z3.If(t < 0, t + 2 ** (8 * w), t))
+        org = ctx.int_origin.get(("signed", t.get_id()))
+        if org is not None and org[2] == little and org[3] == w:
+            return norm_bytes(org[1])
+        u = z3.simplify(z3.If(t < 0, t + 2 ** (8 * w), t))
+        ctx.keep.append(u)
+        ctx.keep.append(t)
+        ctx.int_origin[("enc", u.get_id())] = (t,)
+        t = u
     else:
         I.safety("to_bytes_overflow", wrap_bool(z3.And(t >= 0, t < 256 ** w)), OverflowError)
     org = ctx.int_origin.get(t.get_id()) if z3.is_expr(t) else None
@@ -910,6 +998,35 @@ def bit_length(I, x):
     if isinstance(x, SBV):
         x = SInt(zi(x))
     t = zi(x)
+    key0 = ("bitlen_split", t.get_id())
+    if key0 in ctx.divmod_cache:
+        return ctx.divmod_cache[key0][1]
+    # finite case split when the operand is confined to a machine-size range by the path
+    # condition: the bit length becomes concrete on each path (complete: every value covered)
+    for K in (264,):
+        if ctx.entails(z3.And(t > -(2 ** K), t < 2 ** K), ms=4000):
+            a = z3.If(t < 0, -t, t)
+            # already pinned by the path condition?
+            ctx.solver.set("timeout", ctx.feas_ms)
+            if ctx.solver.check() == z3.sat:
+                mv = ctx.solver.model().eval(t, model_completion=True)
+                if z3.is_int_value(mv):
+                    b0 = abs(mv.as_long()).bit_length()
+                    cond = (t == 0) if b0 == 0 else z3.And(a >= 2 ** (b0 - 1), a < 2 ** b0)
+                    if ctx.entails(cond):
+                        ctx.divmod_cache[key0] = (t, b0)
+                        return b0
+            if ctx.branch(t == 0):
+                r = 0
+            else:
+                r = K
+                for b in range(1, K):
+                    if ctx.branch(a < 2 ** b):
+                        r = b
+                        break
+                ctx.fact(a >= 2 ** (r - 1))
+            ctx.divmod_cache[key0] = (t, r)
+            return r
     f = ctx.uf("bitlen", z3.IntSort(), z3.IntSort())
     bl = f(t)
     key = ("bitlen", t.get_id())
@@ -1178,6 +1295,8 @@ def slist_method(I, sl, name, args, kwargs):
 
 
 def opaque_attr(I, base, name):
+    if base.kind == "timedelta" and name == "total_seconds":
+        return Opaque("tdmethod", base.t)
     if base.kind == "str":
         from .interp import BoundMethod
         return Opaque("strmethod", info=name)
